@@ -53,3 +53,41 @@ def replay(obj, kind):
 def witness_f3():
     from .c05 import witness_f3 as w
     return w()
+
+
+def witness_f10():
+    """CheckIds upstream of a disk cache, two variants with different ids on one storage: the smaller variant is served
+    the other's entry for an id outside its ids, where the same pipeline without the cache layer raises KeyError."""
+    import shutil, tempfile
+    from connectome import Source, meta, CacheToDisk
+    from connectome.layers.check_ids import CheckIds
+
+    class F10DS(Source):
+        _n: int
+
+        @meta
+        def ids(_n):
+            return tuple(str(i) for i in range(_n))
+
+        def image(i):
+            return 'img-' + i
+
+    os.makedirs(paths.SCRATCH, exist_ok=True)
+    root = tempfile.mkdtemp(dir=paths.SCRATCH)
+    try:
+        def build(n, cached):
+            p = F10DS(n=n) >> CheckIds()
+            return p >> CacheToDisk.simple('image', root=root) if cached else p
+        build(5, True).image('4')
+        try:
+            build(2, False).image('4')
+            return False          # the uncached pipeline no longer rejects the id: not this finding
+        except KeyError:
+            pass
+        try:
+            build(2, True).image('4')
+            return True           # served from the other variant's entry
+        except KeyError:
+            return False
+    finally:
+        shutil.rmtree(root, ignore_errors=True)
